@@ -4,7 +4,7 @@ translator : tools/gen_sample.py regenerates XmpModel/Gen/SampleConsts.lean (SAM
              MAX_SAMPLE_SIZE, vdic_table, order of the flag-conditioned steps) from /repo on every run
 proof      : XmpProps.C20 over XmpModel.Sample (loop-style model `Sample.load` = closed-form `Sample.Spec.load`)
 tie        : correspondence — harness/c20_sample.c calls the real libxmp_load_sample (memory HIO handle or
-             SAMPLE_FLAG_NOLOAD buffer) under ASan+UBSan; the native driver drv_c20 evaluates, on the same case
+             SAMPLE_FLAG_NOLOAD buffer, or a callback HIO handle whose read function comes back short) under ASan+UBSan; the native driver drv_c20 evaluates, on the same case
              lines, the loop-style model (M) and the closed-form specification (S); return code, len/lps/lpe/flg,
              hio_tell and the whole allocation data[-4 .. bytelen+extralen) are compared
 oracle     : the closed-form specification S *is* the reference decoder of the property: real != S is a
@@ -29,15 +29,19 @@ MANIFEST = dict(
          "full-repeat flag, both guard-fill loops in their index order) equals the closed-form element-wise reference decoder: "
          "C20_main (whole function, incl. return code, header, consumed bytes, whole allocation), C20_pipeline / C20_pipeline_load / "
          "C20_stage_* (loops = index formulas, in the defined order; C20_stage_order ties the order to the regenerated call order; "
-         "OrderSensitive examples pin it), C20_truncation / C20_truncation_prefix, C20_loop, C20_guards, C20_no_error, C20_vidc_table, "
+         "OrderSensitive examples pin it), C20_truncation / C20_truncation_prefix, C20_short_read_main / C20_short_read / "
+         "C20_short_read_dest / _enough / _adpcm / _header / _none (a read that comes back short although hio_size() promised the bytes: the "
+         "delivered bytes survive and the tail is zero before any conversion, every width and every cut, frame-aligned or not; ADPCM "
+         "fails as a whole), C20_loop, C20_guards, C20_no_error, C20_vidc_table, "
          "Sample.alloc_le, Sample.writes_in_bounds. The model is tied to src/loaders/sample.c on every run by regenerated "
          "constants/tables (translator) and a differential correspondence against the real function under ASan+UBSan on the whole "
          "allocation data[-4 .. bytelen+extralen), incl. every call the corpus modules' real loaders make (link-time spy); the "
          "closed form (with its own copy of the published VIDC law) doubles as the direct oracle that yields replayable failing inputs.",
     note="Trusted: Lean kernel (propext/Classical.choice/Quot.sound only), the hand-written definitions in XmpModel/Sample.lean "
          "(loop-style model and closed-form specification), tools/gen_sample.py, the harness and differ. Modelled-not-verified: the HIO "
-         "layer (hio_tell/hio_size/hio_read/hio_seek of memory and regular-file handles are assumed: reads are complete up to the "
-         "end, memory seeks clamp), malloc failure paths, big-endian hosts (WORDS_BIGENDIAN), the callers' obligations that a NOLOAD "
+         "layer (hio_tell/hio_size/hio_read/hio_seek are assumed: a read delivers min(requested, what is left of `limit`) bytes and "
+         "returns that count for item size 1 - `limit` >= avail for memory/regular files, smaller for a failing callback, one cut "
+         "point, later reads return 0; memory seeks clamp), malloc failure paths, big-endian hosts (WORDS_BIGENDIAN), the callers' obligations that a NOLOAD "
          "buffer holds len*framelen bytes (hypothesis BufferOk) and that the handle is non-NULL on the skip path; xmp_sample.flg is "
          "a 32-bit vector, len/lps/lpe unbounded integers (len*framelen <= 2^30 cannot overflow int since len <= MAX_SAMPLE_SIZE). "
          "The single byte adpcm4_decoder writes at dest[bytelen] for odd bytelen is not represented in the model's buffer (it is "
@@ -52,7 +56,8 @@ MANIFEST = dict(
 REQUIRED = ["Xmp.Sample." + n for n in (
     "C20_stage_order", "C20_vidc_table", "C20_main", "C20_no_error", "C20_loaded", "C20_pipeline", "C20_pipeline_load", "C20_stage_shl1", "C20_stage_bswap",
     "C20_stage_delta8", "C20_stage_delta16", "C20_stage_unsign", "C20_stage_vidc", "C20_stage_interleave", "C20_stage_adpcm",
-    "C20_truncation", "C20_truncation_prefix", "C20_loop", "C20_guards", "alloc_le", "writes_in_bounds")]
+    "C20_truncation", "C20_truncation_prefix", "C20_short_read_main", "C20_short_read_none", "C20_short_read_dest",
+    "C20_short_read", "C20_short_read_enough", "C20_short_read_adpcm", "C20_short_read_header", "C20_loop", "C20_guards", "alloc_le", "writes_in_bounds")]
 
 FIELDS = ["ret", "len", "lps", "lpe", "flg", "tell", "data"]
 FBITS = {"DIFF": 1, "UNS": 2, "8BDIFF": 4, "7BIT": 8, "NOLOAD": 0x10, "BIGEND": 0x40, "VIDC": 0x80, "INTERLEAVED": 0x100,
@@ -78,12 +83,23 @@ def run_driver_bytes(data, timeout=1800):
     return p.stdout.decode("latin-1").splitlines()
 
 
+def same_result(r, x):
+    """real result line `r` vs model/spec line `x` (both with their one-letter tag): equal up to the fields the
+    reference leaves open (`?`: header and stream position after a failed load)"""
+    if x[1:] == r[1:]:
+        return True
+    if "?" not in x:
+        return False
+    a, b = r.split(" ")[2:], x.split(" ")[2:]
+    return len(a) == len(b) and all(p == q or q == "?" for p, q in zip(a, b))
+
+
 def which_field(a, b):
     """first differing observable between two result lines (already split after the id)"""
     if a is None or b is None:
         return "missing"
     for n, x, y in zip(FIELDS, a, b):
-        if x != y:
+        if x != y and y != "?":
             if n != "data":
                 return n
             if x == "NULL" or y == "NULL":
@@ -172,6 +188,24 @@ def job(args):
         cid, flags, ln, lps, lpe, flg, skip, pos = cf[1], int(cf[2]), int(cf[3]), int(cf[4]), int(cf[5]), int(cf[6]), int(cf[7]), int(cf[8])
         rf = r.split(" ")
         alloc = rf[8] != "NULL"
+        lim = None
+        if hargs[0] in ("short", "exhs", "replay"):
+            tail = cf[10].split(" ")
+            if len(tail) == 2:
+                lim = int(tail[1])
+        if lim is not None:
+            bump("callback_handle_cases")
+            if rf[2] == "-1":
+                bump("callback_failed_load_ret_-1")
+            elif alloc and not flags & 0x10:
+                fl_ = (2 if flg & 1 else 1) * (2 if flg & 0x80 else 1)
+                bl = int(rf[3]) * fl_
+                if not flags & 0x4000 and lim < bl:
+                    bump("short_read_survived_%d%s" % (16 if flg & 1 else 8, "s" if flg & 0x80 else "m"))
+                    if lim == 0:
+                        bump("short_read_nothing_delivered")
+                    if lim % fl_:
+                        bump("short_read_not_frame_aligned")
         rlen = int(rf[3])
         nontrivial = False
         if alloc:
@@ -208,6 +242,8 @@ def job(args):
                 bump("skipped_at_eof_or_short_adpcm")
         if hargs[0] == "corpus":
             res.setdefault("corpus_flags", set()).add(flags)
+        if lim is not None and rf[2] == "-1":
+            nontrivial = True
         if nontrivial:
             keys.append(hash((flags, ln, lps, lpe, flg, skip, len(cf[9]), cf[9][:64], cf[10][:64])))
         if len(res["samples"]) < 2 and nontrivial:
@@ -216,8 +252,8 @@ def job(args):
         m = s = None
         if dl is not None:
             m, s = dl[2 * i], dl[2 * i + 1]
-        ok_s = s is None or s.endswith(" toolarge") or s[1:] == r[1:]
-        ok_m = m is None or m[1:] == r[1:]
+        ok_s = s is None or s.endswith(" toolarge") or same_result(r, s)
+        ok_m = m is None or same_result(r, m)
         if s is not None and s.endswith(" toolarge"):
             bump("spec_not_evaluated_large")
         if ok_s and ok_m and o is None:
@@ -253,6 +289,11 @@ def run(ck):
     if os.path.isdir(cdir):
         for fn in sorted(os.listdir(cdir)):
             jobs.append((exe, ["replay", os.path.join(cdir, fn)], have_driver))
+    # reads that come back short although hio_size() promised the bytes (callback handle)
+    for i in range(4 if quick else 8):
+        jobs.append((exe, ["exhs", str(i), str(4 if quick else 8)], have_driver))
+    for i in range(8 if quick else 32):
+        jobs.append((exe, ["short", str(base + 500 + i), "400" if quick else "5000"], have_driver))
     if quick:
         for i in range(16):
             jobs.append((exe, ["random", str(base + i), "400"], have_driver))
@@ -336,8 +377,8 @@ def run(ck):
                       "random (all 12 flag bits, 8/16 bit, mono/stereo, len -3..64 and > MAX_SAMPLE_SIZE, loop points incl. inverted/"
                       "out-of-range/INT_MIN/INT_MAX, avail 0..need+9, NULL handle), big (len 65..70000), exh (every combination of the 10 "
                       "effective flag bits x width x layout x len 0..9 x every avail 0..need+3 x rotating loop grid (3 points per combination in quick, 12 in thorough, of 252), plus the full loop grid "
-                      "on 4 flag sets; quick runs a seed-chosen 16/4096 slice), corpus (every call real loaders make to libxmp_load_sample while the repository's test modules are loaded from memory, recorded by a --wrap spy with the stream cut to need+8 bytes). distinct = hash of the case without its id; non-trivial = "
-                      "the real code allocated PCM with len' > 0 and a conversion applied, the sample was truncated, or loop/flags changed")
+                      "on 4 flag sets; quick runs a seed-chosen 16/4096 slice), short / exhs (callback HIO handle whose read function delivers only `limit` bytes although hio_size() promised more: random cases with limit 0, need-1, 0..need+1, >= avail; and every width x len 1..6 x {complete, longer, truncated} stream x every limit 0..need+1 on 8 flag sets incl. ADPCM), corpus (every call real loaders make to libxmp_load_sample while the repository's test modules are loaded from memory, recorded by a --wrap spy with the stream cut to need+8 bytes). distinct = hash of the case without its id; non-trivial = "
+                      "the real code allocated PCM with len' > 0 and a conversion applied, the sample was truncated, or loop/flags changed, or a short read made the load fail")
     ck.assumptions += [
         "memory HIO handle semantics (hio_tell/hio_size/hio_read/hio_seek) as modelled: reads are complete up to the end, seeks clamp",
         "malloc succeeds; little-endian host; a NOLOAD buffer holds at least len*framelen bytes; handle non-NULL on the skip path",
@@ -367,7 +408,7 @@ def replay(ck, rp):
         print("\n".join(l[:3000] for l in dl))
         r = [l for l in text.splitlines() if l.startswith("R ")]
         for rr, s in zip(r, dl[1::2]):
-            if not s.endswith("toolarge") and s[1:] != rr[1:]:
+            if not s.endswith("toolarge") and not same_result(rr, s):
                 print("real code differs from the closed-form reference in `%s`" % which_field(rr.split(" ")[2:], s.split(" ")[2:]))
                 bad = True
     if any(l.startswith("O ") for l in text.splitlines()):
